@@ -183,6 +183,42 @@ def run(prog, rep, tier, cfg):
                      'it stays in the miner\'s balance although it was taken off fee_debt' % fate, c.where,
                      {'rule': 'K8', 'handler': hn, 'send': c.where, 'fate': fate, 'fallback_found': fb})
 
+    # ---- F. every early termination is queued under the deadline / partition that holds it (otherwise the fee is never assessed)
+    def et_sets(f, adt):
+        return [c for c in f.calls if callee_is('BitField::set')(c) and has_atom(prog.narrow.operand(f, c.args[0]), 'F:%s.early_terminations' % adt)]
+    n = 0
+    for owner, fn_ in (('State', 'state::State::advance_deadline'), ('State', 'Actor::terminate_sectors')):
+        H = X.fn(fn_, CR)
+        for g in prog.family(H):
+            sets = et_sets(g, 'State')
+            if not sets:
+                continue
+            n += 1
+            lds = [c for c in g.calls if callee_is('Deadlines::load_deadline')(c)]
+            X.index_agreement('K10', 'early-termination-queued:%s:deadline-index' % fn_.split('::')[-1], g,
+                              [('early_terminations.set', c, 1) for c in sets] + [('load_deadline', c, 2) for c in lds],
+                              'the miner-level early-termination flag is set for the deadline that was processed')
+    rep.floor('K10', 'state_early_termination_set_sites', n, 2)
+    X.writers('K4', 'State', 'early_terminations', ['state::State::advance_deadline', 'Actor::terminate_sectors', 'state::State::pop_early_terminations'],
+              required=['state::State::advance_deadline', 'Actor::terminate_sectors'], crate=CR, constructors=['state::State::new'])
+    AD = X.fn('state::State::advance_deadline', CR)
+    sets = et_sets(AD, 'State')
+    cs = [(c, arm) for (c, arm) in X.find_conds(AD, m_pred('is_empty', ['F:ExpirationSet.early_sectors'], False)) if arm in c.arms]
+    rep.need('K7', 'early-termination-queued:advance_deadline:flagged-when-any', len(cs) == 1 and len(sets) == 1 and
+             not AD.ok_returns_from([cs[0][0].arms[cs[0][1]]], blocked={sets[0].bb}),
+             'when sectors expired early (early_sectors not empty) every success path sets the miner-level early-termination flag', X.loc(AD))
+    DT = X.fn('deadline_state::Deadline::terminate_sectors', CR)
+    sets = et_sets(DT, 'Deadline')
+    pg = [c for c in DT.calls if (c.callee or '').endswith('::get') and has_atom(prog.narrow.operand(DT, c.args[0]), 'C:Deadline::partitions_amt')]
+    ps = [c for c in DT.calls if (c.callee or '').endswith('::set') and not callee_is('BitField::set')(c) and has_atom(prog.narrow.operand(DT, c.args[0]), 'C:Deadline::partitions_amt')]
+    X.index_agreement('K10', 'early-termination-queued:Deadline::terminate_sectors:partition-index', DT,
+                      [('early_terminations.set', c, 1) for c in sets] + [('partitions.get', c, 1) for c in pg] + [('partitions.set', c, 2 if len(c.args) > 3 else 1) for c in ps],
+                      'the deadline-level flag is set for the partition that recorded the termination')
+    cs = [(c, arm) for (c, arm) in X.find_conds(DT, m_pred('is_empty', ['C:Partition::terminate_sectors'], False)) if arm in c.arms]
+    rep.need('K7', 'early-termination-queued:Deadline::terminate_sectors:flagged-when-any', len(cs) == 1 and len(sets) == 1 and
+             not DT.ok_returns_from([cs[0][0].arms[cs[0][1]]], blocked={sets[0].bb}),
+             'when a partition terminated sectors the deadline-level flag is set on every success path', X.loc(DT))
+
 
 def ret_components(prog, f, idx):
     """atoms (narrow) of component idx of every `Ok((..))` tuple returned by f"""
